@@ -5,6 +5,7 @@ CONSTANTS
   PropSet <- PropSetQuick
   UnitLimit = 18
   ActLimit = 18
+  GrowLimit = 6
 SPECIFICATION Spec
 CHECK_DEADLOCK FALSE
 INVARIANT TypeOK
